@@ -4,6 +4,8 @@ import PyamgV.Generated.Facts
 import PyamgV.Proofs.Cache
 import PyamgV.Proofs.C15Reuse
 import PyamgV.Proofs.C15Store
+import PyamgV.Proofs.ExtSpmmMat
+import PyamgV.Proofs.ExtSpmmHier
 
 /-! # C15 — setup is pure and reproducible; built solvers are reusable
 
@@ -66,7 +68,77 @@ restate layout_user_only_if_alias := PyamgV.C15.Store.layout_user_only_if_alias
 restate cache_run_same_matrix := PyamgV.Cache.run_same_matrix
 restate cache_last_independent := PyamgV.Cache.last_independent
 
+/-! ### the same hierarchy for any input format, Galerkin step (extension E27): `Model/ExtSpmm.lean` models
+the conversions the constructors apply to their input (`Spmm.Input.toCsr`: COO with duplicates summed,
+CSC, dense, BSR with any block size, CSR as it is) and `R @ A @ P`; the driver runs them (`ext_convert`,
+`ext_spmm`) and the C04 check compares them with `scipy.sparse` array by array. -/
+/-- every conversion to CSR preserves the dense meaning: `val (toCsr X) = val X` -/
+restate convert_preserves_meaning := PyamgV.Spmm.Input.val_toCsr
+/-- ... as Mathlib matrices -/
+restate convert_preserves_matrix := PyamgV.Spmm.Input.mat_toCsr
+/-- ... and returns well-formed CSR arrays of the same shape -/
+restate convert_well_formed := PyamgV.Spmm.Input.toCsr_wf
+/-- format by format -/
+restate convert_coo := PyamgV.Spmm.val_cooToCsr
+restate convert_csc := PyamgV.Spmm.val_cscToCsr
+restate convert_dense := PyamgV.Spmm.val_denseToCsr
+restate convert_bsr := PyamgV.Spmm.val_bsrToCsr
+/-- COO -> CSR returns the canonical form: every row strictly sorted by column (duplicates were summed) -/
+restate convert_coo_canonical := PyamgV.Spmm.cooToCsr_sorted
+/-- `sum_duplicates()` changes the stored pattern only -/
+restate sum_duplicates_meaning := PyamgV.Spmm.val_sumDuplicates
+restate sum_duplicates_canonical := PyamgV.Spmm.sumDuplicates_sorted
+/-- format independence of the Galerkin step: two inputs in any of the accepted formats with the same
+dense meaning give coarse operators `R @ toCsr(X) @ P` with the same dense meaning -/
+restate galerkin_format_independent := PyamgV.Spmm.galerkin_input_independent
+/-- the same for all three operands at CSR level: stored pattern, order of the entries, duplicates and
+explicit zeros of `R`, `A`, `P` do not influence the meaning of the coarse operator -/
+restate galerkin_layout_independent := PyamgV.Spmm.galerkin_congr
+/-- the coarse operator of a converted input is the triple product with the input's own dense meaning -/
+restate galerkin_of_input := PyamgV.Spmm.mat_galerkin_input
+/-- the whole hierarchy: the loop of the constructors (`Coarsen.build`) with the sparse step "`P` from the level
+matrix, `R = conj(P)ᵀ`, `A_c = R @ A @ P`", started on two stored forms of one matrix, returns the same number
+of levels and level by level the same dense meaning, provided the construction of `P` (strength, splitting /
+aggregation, interpolation, smoothing: a parameter here, and what the format search observes on the real
+code) sees the dense meaning only (`PStepOK`) -/
+restate hierarchy_format_independent := PyamgV.Spmm.hierarchy_format_independent
+/-- ... for an input given in two of the accepted formats -/
+restate hierarchy_input_independent := PyamgV.Spmm.hierarchy_input_independent
+/-- the simulation argument behind it, for any relation between the states of two runs of the loop -/
+restate loop_simulation := PyamgV.Spmm.build_sim
+/-- `PStepOK` is satisfiable: aggregation of consecutive unknowns looks at the shape only -/
+restate pstep_hypothesis_satisfiable := PyamgV.Spmm.pairStep_ok
+/-- the instance the driver executes (`ext_convert`) -/
+restate convert_driver := PyamgV.Spmm.CRatInst.valC_toCsrC
+
 /-! non-vacuity -/
+section spmm_examples
+open PyamgV.Spmm
+/-- `[[0, 2, 0], [-3, 0, 4]]` as COO with the duplicate `(1, 2)`: 1 + 3, an explicit zero at `(0, 0)` -/
+def cooX : Input CRat := .coo ⟨2, 3, #[1, 0, 1, 1, 0], #[2, 1, 2, 0, 0], #[⟨1,0⟩, ⟨2,0⟩, ⟨3,0⟩, ⟨-3,0⟩, ⟨0,0⟩]⟩
+def denseX : Input CRat := .dense ⟨2, 3, #[⟨0,0⟩, ⟨2,0⟩, ⟨0,0⟩, ⟨-3,0⟩, ⟨0,0⟩, ⟨4,0⟩]⟩
+def cscX : Input CRat := .csc ⟨2, 3, #[0, 1, 2, 3], #[1, 0, 1], #[⟨-3,0⟩, ⟨2,0⟩, ⟨4,0⟩]⟩
+def bsrX : Input CRat := .bsr ⟨2, 3, 2, 3, #[0, 1], #[0], #[⟨0,0⟩, ⟨2,0⟩, ⟨0,0⟩, ⟨-3,0⟩, ⟨0,0⟩, ⟨4,0⟩]⟩
+example : cooX.wf = true ∧ denseX.wf = true ∧ cscX.wf = true ∧ bsrX.wf = true := by decide
+-- what SciPy returns for `.tocsr()`: the explicit zero of the COO input is kept, the dense one is dropped
+example : (toCsrC cooX).aj = #[0, 1, 0, 2] ∧ (toCsrC cooX).ax = #[⟨0,0⟩, ⟨2,0⟩, ⟨-3,0⟩, ⟨4,0⟩] := by decide +kernel
+example : (toCsrC denseX).aj = #[1, 0, 2] ∧ (toCsrC bsrX).aj = #[0, 1, 2, 0, 1, 2] := by decide +kernel
+-- four stored patterns, one dense meaning
+example : toDenseC (toCsrC cooX) = toDenseC (toCsrC denseX) ∧ toDenseC (toCsrC cscX) = toDenseC (toCsrC denseX)
+    ∧ toDenseC (toCsrC bsrX) = toDenseC (toCsrC denseX) := by decide +kernel
+-- the loop with the pairwise step on `tridiag(-1, 2, -1)` of size 4 given dense and as COO with a split entry:
+-- three levels of sizes 4, 2, 1 (coarsest first) with the same dense meanings `[2]`, `[[2,-1],[-1,2]]`, ...
+def lapDense : Input CRat := .dense ⟨4, 4, #[⟨2,0⟩, ⟨-1,0⟩, ⟨0,0⟩, ⟨0,0⟩, ⟨-1,0⟩, ⟨2,0⟩, ⟨-1,0⟩, ⟨0,0⟩,
+  ⟨0,0⟩, ⟨-1,0⟩, ⟨2,0⟩, ⟨-1,0⟩, ⟨0,0⟩, ⟨0,0⟩, ⟨-1,0⟩, ⟨2,0⟩]⟩
+def lapCoo : Input CRat := .coo ⟨4, 4, #[3, 0, 0, 1, 1, 1, 2, 2, 2, 3, 0], #[3, 0, 1, 0, 1, 2, 1, 2, 3, 2, 0],
+  #[⟨2,0⟩, ⟨1,0⟩, ⟨-1,0⟩, ⟨-1,0⟩, ⟨2,0⟩, ⟨-1,0⟩, ⟨-1,0⟩, ⟨2,0⟩, ⟨-1,0⟩, ⟨-1,0⟩, ⟨1,0⟩]⟩
+example : ((PyamgV.Coarsen.build (fun A => A.rows) (gstep id pairStep) 10 0 10 [toCsrC lapDense]).map toDenseC
+    = (PyamgV.Coarsen.build (fun A => A.rows) (gstep id pairStep) 10 0 10 [toCsrC lapCoo]).map toDenseC)
+    ∧ (PyamgV.Coarsen.build (fun A => A.rows) (gstep id pairStep) 10 0 10 [toCsrC lapCoo]).map (fun A => A.rows) = [1, 2, 4]
+    ∧ ((PyamgV.Coarsen.build (fun A => A.rows) (gstep id pairStep) 10 0 10 [toCsrC lapCoo]).map toDenseC).take 2
+        = [#[⟨2,0⟩], #[⟨2,0⟩, ⟨-1,0⟩, ⟨-1,0⟩, ⟨2,0⟩]] := by
+  decide +kernel
+end spmm_examples
 open PyamgV.C15 in
 /-- a symbolic coarse solver: `factor = id`, `apply f b = (f, b)` -/
 def demoOps : Ops Nat (Nat × Nat) Nat :=
